@@ -17,6 +17,7 @@ mod fam_work;
 mod gen;
 mod rec;
 mod replay;
+mod rerun;
 mod util;
 
 use util::{Args, Out};
@@ -53,6 +54,7 @@ fn main() {
         ("replay", "alg") => replay::replay_alg(&a, &mut out),
         ("replay", "compact") => replay::replay_compact(&a, &mut out),
         ("drive", "steps") => fam_a::drive_steps(&a, &mut out),
+        ("rerun", _) => rerun::rerun(&a, &mut out),
         ("drive", "c10ops") => fam_a::drive_c10ops(&a, &mut out),
         (m, f) => {
             eprintln!("unknown mode/family {} {}", m, f);
